@@ -137,7 +137,7 @@ def gen_namespace(rng, nsname, thorough, deps, want_blocks=True, main=True, gobj
         else:
             D({'k': 'typedef_struct', 'name': P + r, 'tag': tag, 'members': members}, f_typedefs, len(members) + 1)
         if want_blocks and rng.random() < 0.6:
-            tl = ['%s%s:' % (P, r)]
+            tl = ['%s%s:%s' % (P, r, ' (foreign)' if style == 'opaque' and rng.random() < 0.4 else '')]
             if style != 'opaque':
                 for m in members[:2]:
                     if not m['private'] and rng.random() < 0.6:
@@ -323,12 +323,24 @@ def gen_namespace(rng, nsname, thorough, deps, want_blocks=True, main=True, gobj
                     block(['%s:' % ctor['name']] + ['@%s: the %s' % (n, n) for n, _ in params] +
                           ['', 'Creates a %s.' % cl, '', 'Returns: (transfer full): a new #%s%s' % (P, cl)], ctor['file'])
             plist = rng.sample([('size', 'gint', 3, '0'), ('name', 'gchararray', 7, 'NULL'), ('active', 'gboolean', 1, 'FALSE'),
+                                ('visible', 'gboolean', 3, 'TRUE'),
                                 ('zoom-level', 'gdouble', 11, '1.000000'), ('owner', 'GObject', 3, None)], rng.randint(0, 4))
             props = ''
             for (n, t, fl, dv) in plist:
                 props += '<property name="%s" type="%s" flags="%d"%s/>' % (n, t, fl, (' default-value="%s"' % dv) if dv else '')
                 un = n.replace('-', '_')
-                if t in ('gint', 'gboolean') and rng.random() < 0.6:
+                if t == 'gboolean':
+                    # several methods the getter heuristics accept for one boolean property
+                    # (get_x, is_x, and plain x for read-only ones): which one wins is decided by
+                    # their weights, not by the order in which they are met
+                    cands = ['get_' + un, 'is_' + un] + ([un] if not fl & 2 else [])
+                    for mname in rng.sample(cands, rng.randint(0, len(cands))):
+                        D({'k': 'function', 'name': '%s_%s_%s' % (p, sc, mname), 'ret': ['named', 'gboolean'],
+                           'params': [['self', ['ptr', ['named', P + cl]]]]}, rng.choice(apis))
+                    if fl & 2 and rng.random() < 0.6:
+                        D({'k': 'function', 'name': '%s_%s_set_%s' % (p, sc, un), 'ret': ['void'],
+                           'params': [['self', ['ptr', ['named', P + cl]]], [un, ['named', 'gboolean']]]}, rng.choice(apis))
+                elif t in ('gint',) and rng.random() < 0.6:
                     ct = ['basic', 'int'] if t == 'gint' else ['named', 'gboolean']
                     D({'k': 'function', 'name': '%s_%s_get_%s' % (p, sc, un), 'ret': ct,
                        'params': [['self', ['ptr', ['named', P + cl]]]]}, rng.choice(apis))
